@@ -440,6 +440,7 @@ def monParse (d : Dicts) (mode : String) (w : Bytes) (obs : List String) : List 
 
 /-- expected `get` on a parsed wire: last top-level occurrence of the tag in its section -/
 def expectGet (d : Dicts) (w : Bytes) (s : Sec) (t : Tag) : Option (Option Bytes) :=
+  if tenMember d then none else   -- a dictionary that lists CheckSum inside a group: no claim (C11_checksum_member_swallowed)
   match scanFields w with
   | none => none
   | some fs =>
